@@ -94,21 +94,37 @@ def data_slice(res):
     return None, None, "no `allocated_memory()[reserved..]` slice found (%d RangeFrom index site(s))" % len(idx)
 
 
-def slice_bounds(v, D, TOTAL):
+def slice_bounds(v, D, TOTAL, depth=0):
+    """[start, end) of v inside D; a sub-slice of a sub-slice (`let (head, data) = data.split_at(h)`, `let data = &data[h..]`) is placed by adding the offsets"""
     if v == D:
         return const(0), TOTAL
-    if tag(v) == "call" and re.search(r"::index$", v[1]) and len(v[2]) == 2 and v[2][0] == D and tag(v[2][1]) == "struct":
+    if depth < 4 and tag(v) == "call" and re.search(r"::index$", v[1]) and len(v[2]) == 2 and tag(v[2][1]) == "struct":
+        base = slice_bounds(v[2][0], D, TOTAL, depth + 1)
+        if base is None:
+            return None
+        bs, be = base
         r = v[2][1]
         nm = r[1].split("::")[-1]
-        if nm == "Range":
-            return struct_get(r, "start"), struct_get(r, "end")
-        if nm == "RangeFrom":
-            return struct_get(r, "start"), TOTAL
-        if nm == "RangeTo":
-            return const(0), struct_get(r, "end")
+        s_, e_ = struct_get(r, "start"), struct_get(r, "end")
+        if nm == "Range" and s_ is not None and e_ is not None:
+            return add(bs, s_), add(bs, e_)
+        if nm == "RangeFrom" and s_ is not None:
+            return add(bs, s_), be
+        if nm == "RangeTo" and e_ is not None:
+            return bs, add(bs, e_)
         if nm == "RangeFull":
-            return const(0), TOTAL
+            return bs, be
     return None
+
+
+def _empty_facts(fs):
+    """`s.is_empty()` known true / false says len(s) = 0 / len(s) >= 1"""
+    out = set(fs)
+    for f in fs:
+        if isinstance(f, tuple) and len(f) == 3 and f[0] == "bool" and tag(f[1]) == "call" and f[1][1].endswith("<impl [T]>::is_empty") and len(f[1][2]) == 1:
+            ln = ("len", f[1][2][0])
+            out.add(("cmp", "Eq", ln, const(0)) if f[2] else ("cmp", "Ge", ln, const(1)))
+    return out
 
 
 @rule("C19-X3", "C19", 2, "checksum: the update calls form an ordered contiguous cover of data - the consumed position starts at 0, every update starts at the position and "
@@ -163,10 +179,10 @@ def x3(ctx):
         return set(f for h, f in AUX.items() if b.dominates(h, bb))
 
     def facts_at(bb):
-        return set(implied_facts(ev.guards(res, bb))) | aux_for(bb)
+        return _empty_facts(set(implied_facts(ev.guards(res, bb)))) | aux_for(bb)
 
     def facts_edge(p, j):
-        return set(implied_facts(ev.guards_edge(res, p, j))) | aux_for(p)
+        return _empty_facts(set(implied_facts(ev.guards_edge(res, p, j)))) | aux_for(p)
 
     def eq(fs, x, y):
         x, y = N(x), N(y)
@@ -340,7 +356,7 @@ def x3(ctx):
                 elif not okx:
                     problems.append(("update-arg", ev_loc(ctx, e), "for_each over chunks of something that is not a whole number of chunks of a sub-slice of data: %s" % short(cn[1], 80)))
                     continue
-                fs = set(implied_facts(ctx.guards_of(ev, e)))
+                fs = _empty_facts(set(implied_facts(ctx.guards_of(ev, e))))
                 if not eq(fs, N(sbx[0]), pos):
                     problems.append(("gap-or-overlap", ev_loc(ctx, e), "the chunk loop starts at %s but %s bytes have been fed so far" % (short(N(sbx[0]), 60), short(N(pos), 60))))
                 pos = N(sbx[1])
@@ -356,7 +372,7 @@ def x3(ctx):
                 problems.append(("update-arg", ev_loc(ctx, e), "update is not applied to a sub-slice of data: %s" % short(e["args"][1], 80)))
                 continue
             s_, e_ = N(sb[0]), N(sb[1])
-            fs = set(implied_facts(ctx.guards_of(ev, e)))
+            fs = _empty_facts(set(implied_facts(ctx.guards_of(ev, e))))
             if not eq(fs, s_, pos):
                 problems.append(("gap-or-overlap", ev_loc(ctx, e), "update starts at %s but %s bytes have been fed so far" % (short(s_, 60), short(N(pos), 60))))
             pos = e_
